@@ -55,6 +55,8 @@ var Palette = []ResInfo{
 	{"apiextensions.k8s.io", "v1", "customresourcedefinitions", "CustomResourceDefinition", false, true},
 	{"verif.example", "v1", "widgets", "Widget", true, false},
 	{"verif.example", "v1", "gadgets", "Gadget", true, false},
+	// the same kind and plural served by a second API group (a resource that moves between groups keeps kind and name)
+	{"legacy.example", "v1", "widgets", "Widget", true, false},
 }
 
 func resByKind(kind string) (ResInfo, bool) {
